@@ -7,6 +7,7 @@ import (
 	"go/ast"
 	"go/token"
 	"go/types"
+	"regexp"
 	"strings"
 
 	"golang.org/x/tools/go/ssa"
@@ -355,8 +356,14 @@ func (x *Exec) applyContract(st *State, fr *Frame, retTo ssa.Value, c *Contract,
 	}
 	old := st.snap()
 	oldVars := env.vars
-	// havoc
+	// havoc (a location indexed by the call's result - `modifies published[arr(result)]` - is forgotten once the result
+	// exists; on the callee's panicking exits there is no result, and the whole ghost is forgotten instead)
+	var resultLocs []string
 	for _, loc := range c.Modifies {
+		if resultWord.MatchString(loc) {
+			resultLocs = append(resultLocs, loc)
+			continue
+		}
 		x.havocLoc(st, env, loc, c)
 	}
 	// interference by other goroutines while this call blocks: forgotten, and exempt from the caller's frame
@@ -418,6 +425,13 @@ func (x *Exec) applyContract(st *State, fr *Frame, retTo ssa.Value, c *Contract,
 	// exceptional outcomes
 	for _, pc := range c.Panics {
 		ps := st.fork()
+		for _, loc := range resultLocs {
+			if i := strings.Index(loc, "["); i > 0 {
+				x.havocLoc(ps, env, loc[:i], c)
+			} else {
+				panic(unsupported{"modifies location " + loc + " mentions the result"})
+			}
+		}
 		pfr := ps.top()
 		pe := mkEnv(ps)
 		pv := ps.fresh("panic_"+sanitize(key), sAny, nil)
@@ -466,6 +480,9 @@ func (x *Exec) applyContract(st *State, fr *Frame, retTo ssa.Value, c *Contract,
 	}
 	// normal outcome
 	ne := mkEnv(st)
+	for _, loc := range resultLocs {
+		x.havocLoc(st, ne, loc, c)
+	}
 	dead := false
 	for _, en := range c.Ensures {
 		if en.Internal {
@@ -617,6 +634,8 @@ func (x *Exec) namedType(name string) types.Type {
 }
 
 // havocLoc forgets the value of one modifies-location in the callee's environment.
+var resultWord = regexp.MustCompile(`\bresult[0-9]*\b`)
+
 func (x *Exec) havocLoc(st *State, env *specEnv, loc string, c *Contract) {
 	if loc == "heap" {
 		x.havocHeapAtCall(st)
@@ -723,6 +742,17 @@ func (x *Exec) stepDefers(st *State, fr *Frame) []*State {
 	if n := len(fr.defers); n > 0 {
 		d := fr.defers[n-1]
 		fr.defers = fr.defers[:n-1]
+		// `at <site> assert` on a deferred call speaks about the moment the call runs (locals, ghosts, inpanic); the
+		// call's arguments were evaluated at the defer statement and are not available under argK here
+		if site, anns := x.siteAnns(st, fr, d.common.Pos()); len(anns) > 0 {
+			env := x.siteEnv(st, fr, d.common.Pos())
+			for _, a := range anns {
+				if a.Kind == "assert" && !x.assumedOnly(a.Cl) {
+					t := x.evalBool(env, a.Cl.Expr, a.Cl)
+					x.oblige(st, fmt.Sprintf("%s/at:%s-assert#%d", x.curFunc, site, a.Cl.Ord), "site-assert", a.Cl.Tags, t, d.common.Pos(), "before deferred "+site+": "+a.Cl.Src)
+				}
+			}
+		}
 		return x.dispatch(st, fr, nil, d.common, d.callee, d.args, true)
 	}
 	if fr.runningDefers {
@@ -1051,18 +1081,19 @@ func (x *Exec) havocHeapKeepBoxes(st *State, stored map[*ssa.Alloc]bool) {
 			}
 			func() {
 				defer func() { recover() }()
-				keep = append(keep, kept{r, et, st.loadAt(nil, "box."+sanitize(et.String()), r, et, nil)})
+				keep = append(keep, kept{r, et, st.loadAt(nil, boxKey(et), r, et, nil)})
 			}()
 		}
 	}
 	st.havocAll()
 	for _, k := range keep {
-		st.storeAt("box."+sanitize(k.typ.String()), k.ref, k.typ, k.val, nil)
+		st.storeAt(boxKey(k.typ), k.ref, k.typ, k.val, nil)
 	}
 }
 
 // privateBox: every use of the variable's address is a load, a store *to* it by its own function, or a capture by a
-// function literal that (recursively) only loads it.
+// function literal that (recursively) only loads it - or, when the literal is used for nothing but a defer statement
+// of that function, loads it or stores to it.
 func (x *Exec) privateBox(al *ssa.Alloc) bool {
 	if v, ok := x.privBox[al]; ok {
 		return v
@@ -1092,9 +1123,30 @@ func (x *Exec) privateBox(al *ssa.Alloc) bool {
 				if !ok {
 					return false
 				}
+				// a literal that is only ever deferred by its own function runs under that function's control and
+				// nowhere else: it may store to the variable as well
+				deferredOnly := n.Referrers() != nil
+				if deferredOnly {
+					for _, u := range *n.Referrers() {
+						switch d := u.(type) {
+						case *ssa.Defer:
+							if d.Call.Value != n {
+								deferredOnly = false
+							}
+							for _, a := range d.Call.Args {
+								if a == n {
+									deferredOnly = false
+								}
+							}
+						case *ssa.DebugRef:
+						default:
+							deferredOnly = false
+						}
+					}
+				}
 				for i, b := range n.Bindings {
 					if b == v {
-						if i >= len(fn.FreeVars) || !readOnly(fn.FreeVars[i], false) {
+						if i >= len(fn.FreeVars) || !readOnly(fn.FreeVars[i], deferredOnly) {
 							return false
 						}
 					}
